@@ -42,6 +42,7 @@ type c05UScn struct {
 	Odd       bool            `json:"odd"`       // odd but well-formed state: count file without counters, weeks that are too old / end before they begin, unusable TimeEnd, stale lock, report already there, debug is a file
 	Empty     bool            `json:"empty"`     // no count files, no reports, no upload directory
 	Reply     int             `json:"reply"`     // status the upload server answers (0 = 200)
+	Stray     []string        `json:"stray"`     // leftover files in local/ with these names (StrayNames.tla); a trailing "/" makes a directory
 	Steps     []string        `json:"steps"`     // "run" ...
 }
 
@@ -165,6 +166,13 @@ func c05UploadCase(t *testing.T, scn *c05UScn, plan *c05h.Plan, env []string, bu
 		os.WriteFile(filepath.Join(local, "2024-02-05.json"), []byte(`{"Week":"2024-02-05"}`), 0666)       // a report from the future
 		os.WriteFile(filepath.Join(dir, "debug"), []byte("not a directory"), 0666)
 	}
+	for _, n := range scn.Stray {
+		if strings.HasSuffix(n, "/") {
+			os.MkdirAll(filepath.Join(local, n), 0777)
+		} else {
+			os.WriteFile(filepath.Join(local, n), []byte(`{"Week":"stray","Programs":[]}`), 0666)
+		}
+	}
 	if scn.Empty {
 		os.RemoveAll(upload)
 		os.Remove(filepath.Join(local, "2024-01-01.json"))
@@ -247,6 +255,7 @@ func c05UploadCase(t *testing.T, scn *c05UScn, plan *c05h.Plan, env []string, bu
 		out["calls"] = h.Calls
 	}
 	rt.Out(out)
+	rt.Flush() // a panic on a goroutine of the code under test kills this process: the supervisor reads what was finished
 }
 
 func TestVerifC05Upload(t *testing.T) {
@@ -389,6 +398,7 @@ func TestVerifC05UploadCorrupt(t *testing.T) {
 		}
 		out["bystanders"] = strings.Join(by, "; ")
 		rt.Out(out)
+		rt.Flush()
 		os.RemoveAll(base)
 	}
 }
